@@ -252,7 +252,7 @@ fn oracle(case: &VCase, world: &Arc<World>, exec: &VExec, rts: &[SubRt]) {
             } else {
                 "not-one-number-per-period"
             };
-            push_violation(g, &["C16"], kind, "interval", pe, -1, d);
+            push_violation(g, &["C16", "C13"], kind, "interval", pe, -1, d);
             continue;
         }
         // bounded silence: the ticking task ends at the first expiry after the disposal
